@@ -388,6 +388,52 @@ func (a *analysis) function(fd *ast.FuncDecl) {
 	})
 }
 
+// collapseErrors replaces ierrors.Wrapf(…)/Errorf(…) calls by ERR(<first argument>) so that message texts are not pinned.
+func collapseErrors(b string) string {
+	for _, fn := range []string{"ierrors.Wrapf(", "ierrors.Wrap(", "ierrors.Errorf("} {
+		for {
+			i := strings.Index(b, fn)
+			if i < 0 {
+				break
+			}
+			depth, j, firstEnd := 0, i+len(fn)-1, -1
+			inStr := false
+			for ; j < len(b); j++ {
+				c := b[j]
+				if c == '"' && b[j-1] != '\\' {
+					inStr = !inStr
+				}
+				if inStr {
+					continue
+				}
+				if c == '(' {
+					depth++
+				} else if c == ')' {
+					depth--
+					if depth == 0 {
+						break
+					}
+				} else if c == ',' && depth == 1 && firstEnd < 0 {
+					firstEnd = j
+				}
+			}
+			if j >= len(b) {
+				break
+			}
+			arg := b[i+len(fn) : j]
+			if firstEnd >= 0 {
+				arg = b[i+len(fn) : firstEnd]
+			}
+			if fn == "ierrors.Errorf(" {
+				arg = ""
+			}
+			b = b[:i] + "ERR[" + arg + "]" + b[j+1:]
+		}
+	}
+
+	return b
+}
+
 func leanList(name string, items []string) string {
 	var b strings.Builder
 	fmt.Fprintf(&b, "def %s : List String := [", name)
@@ -484,6 +530,26 @@ func main() {
 		sw = append(sw, w)
 	}
 	sort.Strings(sw)
+	// normalised bodies (source text without white space) of the small functions the settings model transcribes
+	bodies := map[string]string{}
+	for _, pk := range []*pkgInfo{ser, sx} {
+		for _, f := range pk.files {
+			for _, d := range f.Decls {
+				if fd, ok := d.(*ast.FuncDecl); ok && fd.Body != nil {
+					bodies[funcName(pk.name, fd)] = src(fset, fd.Body)
+				}
+			}
+		}
+	}
+	for _, f := range []string{"serix.TypeSettings.merge", "serix.TypeSettings.ensureOrdering", "serix.TypeSettings.toMode", "serix.TypeSettings.MinLen",
+		"serix.TypeSettings.MaxLen", "serializer.ArrayRules.CheckBounds", "serializer.ArrayValidationMode.HasMode", "serializer.TypePrefixes.Subset"} {
+		b, ok := bodies[f]
+		if !ok {
+			fail("function " + f + " not found in the source")
+		}
+		// error construction is collapsed: a changed message changes nothing
+		text += fmt.Sprintf("def body_%s : String :=\n  \"%s\"\n\n", strings.NewReplacer(".", "_").Replace(f), strings.ReplaceAll(strings.ReplaceAll(collapseErrors(b), "\\", "\\\\"), "\"", "\\\""))
+	}
 	text += leanList("shared_writers", sw)
 	text += leanList("shared_writes", shared) + leanList("fresh_writes", fresh) + leanList("writer_callers", callers) + leanList("codec_reach", rl)
 	text += "end " + ns + "\n"
